@@ -610,6 +610,22 @@ def cases(rng: random.Random, tier: str):
                     "pop": rng.choice([TARGET + 1, TARGET + 2]), "eval_seed": rng.randrange(1 << 30)})
     for _ in range(n_keys):
         out.append(_malform(rng, _rand_identify(rng, 5), rng.choice(["keys_extra", "keys_renamed", "outside_dom_any"])))
+    # SMALL-SCOPE stream (session 4; appended): every labelled ADMG on 2-3 nodes x every valid query x ONE source domain with
+    # every experiment set Z and every non-empty surrogate-outcome set W (153 792 problems) by a fixed stride: 1 in 96 in the
+    # quick tier, 1 in 8 in the thorough tier; half of them also as `uses6` siblings below
+    import itertools as itt
+    stride, k = {"quick": 96, "escalated": 48}.get(tier, 8), 0
+    for n3 in (2, 3):
+        subsets = [list(c) for r in range(n3 + 1) for c in itt.combinations(range(n3), r)]
+        for g in G.all_labelled_admgs(n3):
+            for r in G.all_role_assignments(n3, ("X", "Y"), ("X", "Y")):
+                for Z in subsets:
+                    for W in subsets[1:]:
+                        k += 1
+                        if k % stride == 0:
+                            c = _idc(json.loads(json.dumps(g)), r["X"], r["Y"], [[Z, W]], seed=1000003 * k % (1 << 30))
+                            c["stream"] = "smallscope"
+                            out.append(c)
     # `uses6` (session 4; appended): the HYPOTHESIS of trso_no_usable_surrogate_iff_id (Props/C05Usable.lean) on the real code.
     # Siblings of the identify cases that declare an experiment and are not malformed: did the real run's trso_line6 ever
     # return a usable domain, and are TRSO's and ID's verdicts the same?  (model side: driver op uses_line6)
